@@ -22,6 +22,7 @@ import (
 	"net/netip"
 	"runtime/debug"
 	"sync"
+	"sync/atomic"
 	"time"
 
 	"github.com/Jigsaw-Code/outline-sdk/transport/shadowsocks"
@@ -259,6 +260,9 @@ type natconn struct {
 	// If the connection has only sent one DNS query, it will close
 	// if it receives a DNS response.
 	fastClose sync.Once
+	// Set when a fast close has moved the read deadline of PacketConn
+	// ahead of readDeadline.
+	fastCloseFired atomic.Bool
 }
 
 func (c *natconn) onWrite(addr net.Addr) {
@@ -279,8 +283,12 @@ func (c *natconn) onWrite(addr net.Addr) {
 
 	newDeadline := time.Now().Add(timeout)
 	if newDeadline.After(c.readDeadline) {
+		c.fastCloseFired.Store(false)
 		c.readDeadline = newDeadline
 		c.SetReadDeadline(newDeadline)
+	} else if c.fastCloseFired.CompareAndSwap(true, false) {
+		// This write cancels a fast close that has not taken effect yet.
+		c.SetReadDeadline(c.readDeadline)
 	}
 }
 
@@ -288,6 +296,7 @@ func (c *natconn) onRead(addr net.Addr) {
 	c.fastClose.Do(func() {
 		if isDNS(addr) {
 			// The next ReadFrom() should time out immediately.
+			c.fastCloseFired.Store(true)
 			c.SetReadDeadline(time.Now())
 		}
 	})
